@@ -21,6 +21,8 @@ four automata (geodesic / shortlex, plain / even length) must
 import json
 import multiprocessing as mp
 import random
+import signal
+import time
 
 import numpy as np
 
@@ -57,6 +59,27 @@ VARIANTS = [
 ]
 
 
+class CpuLimit(Exception):
+    pass
+
+
+def cpu_limited(seconds, fn):
+    """run fn() with a bound on the CPU time of this process (independent of the load of the machine)"""
+    def handler(sig, frm):
+        raise CpuLimit()
+    old = signal.signal(signal.SIGVTALRM, handler)
+    signal.setitimer(signal.ITIMER_VIRTUAL, seconds)
+    try:
+        return fn()
+    finally:
+        signal.setitimer(signal.ITIMER_VIRTUAL, 0)
+        signal.signal(signal.SIGVTALRM, old)
+
+
+BASE_CPU_S = 60     # CoxeterGroup.automaton(): H4 (14400 states) needs about 5 s
+EVEN_CPU_S = 20     # even-length variant: allowed 3 x the measured time of the base automaton + this
+
+
 def pairs_of(ws):
     """a word of even length as the list of two-letter labels the even automaton reads"""
     return ["".join(ws[i:i + 2]) for i in range(0, len(ws), 2)]
@@ -79,7 +102,9 @@ def check_variant(sp, v, do_even, do_faithful):
         kind = "shortlex" if sl else "geodesic"
         exp = sp["shortlex"] if sl else sp["reduced"]
         try:
-            A = G.automaton(shortlex=sl)
+            t0 = time.process_time()
+            A = cpu_limited(BASE_CPU_S, lambda: G.automaton(shortlex=sl))
+            t_base = time.process_time() - t0
             got = sorted(A.enumerate_words(L))
             want = sorted(J(w) for w in exp)
             n += len(want)
@@ -112,7 +137,12 @@ def check_variant(sp, v, do_even, do_faithful):
                         bad.append((kind + ".accepts_nonreduced", "accepts(%r) = True, but %r already ends in %r" % (J(w), J(w[:-1]), names[w[-1] - 1])))
                         break
             if do_even:
-                E = G.automaton(shortlex=sl, even_length=True)
+                try:
+                    E = cpu_limited(3 * t_base + EVEN_CPU_S, lambda: G.automaton(shortlex=sl, even_length=True))
+                except CpuLimit:
+                    bad.append((kind + ".even.not_produced", "automaton(shortlex=%r, even_length=True) did not return within %.0f s of CPU time; "
+                                "automaton(shortlex=%r) has %d states and took %.1f s" % (sl, 3 * t_base + EVEN_CPU_S, sl, len(list(A.vertices())), t_base)))
+                    continue
                 Le = L // 2
                 got = sorted(E.enumerate_words(Le))
                 want = sorted(J(w) for w in exp if len(w) % 2 == 0 and len(w) <= 2 * Le)
@@ -130,6 +160,8 @@ def check_variant(sp, v, do_even, do_faithful):
                         if a != (w in exp):
                             bad.append((kind + ".even.accepts", "even automaton accepts(%r) = %r, spec %r" % (J(w), a, w in exp)))
                             break
+        except CpuLimit:
+            bad.append((kind + ".not_produced", "automaton(shortlex=%r) did not return within %d s of CPU time" % (sl, BASE_CPU_S)))
         except Exception as e:
             bad.append(("raised:" + kind, "%s: %s" % (type(e).__name__, e)))
     if do_faithful:
@@ -161,6 +193,8 @@ def check_matrix(args):
     sample = None
     for vi, v in enumerate(VARIANTS[:n_variants]):
         n, bad, s = check_variant(sp, v, do_even, do_faithful=(vi == 0))
+        if any(c.endswith("not_produced") for c, _ in bad):
+            do_even = False     # do not wait for the same construction again under the next variant
         tot += n
         sample = sample or s
         for clause, detail in bad[:3]:
@@ -204,10 +238,15 @@ def run(run, replay=None):
     batches.append(("rank2", r2, [min(M[0][1] + 2, 14) if M[0][1] else 10 for M in r2], 4, True))
     r3 = cc.all_mats(3, cc.LABELS7)
     batches.append(("rank3", r3, [8 if quick else 10] * len(r3), 4 if not quick else 2, True))
+    # rank 4 groups with a name: A4, B4, D4, F4, H4, affine A~3, B~3, C~3, compact hyperbolic [5,3,5], [4,3,5], [3,5,3]
+    named4 = [cc.sym(4, v) for v in ([3, 2, 2, 3, 2, 3], [4, 2, 2, 3, 2, 3], [3, 2, 2, 3, 3, 2], [3, 2, 2, 4, 2, 3], [5, 2, 2, 3, 2, 3],
+                                     [3, 2, 3, 3, 2, 3], [3, 2, 2, 3, 3, 4], [4, 2, 2, 3, 2, 4], [5, 2, 2, 3, 2, 5], [4, 2, 2, 3, 2, 5],
+                                     [3, 2, 2, 5, 2, 3])]
+    batches.append(("rank4named", named4, [5 if quick else 7] * len(named4), 2, True))
     if quick:
-        r4 = cc.random_mats(rng, 4, cc.LABELS7, 150)
+        r4 = cc.random_mats(rng, 4, cc.LABELS7, 120)
         batches.append(("rank4", r4, [5] * len(r4), 2, True))
-        r5 = cc.random_mats(rng, 5, cc.LABELS7, 40, weights=[4, 3, 2, 1, 1, 1, 2])
+        r5 = cc.random_mats(rng, 5, cc.LABELS7, 30, weights=[4, 3, 2, 1, 1, 1, 2])
         batches.append(("rank5", r5, [4] * len(r5), 1, False))
     else:
         r4 = cc.up_to_relabelling(4, cc.LABELS7)
@@ -266,7 +305,8 @@ def run(run, replay=None):
         run.extra["reduced_words"] += sum(len(sp["reduced"]) for sp in SPEC.values())
         del obs, edges
         # heavy matrices first
-        plan.sort(key=lambda a: -len(SPEC[a[0]]["reduced"]) * a[1])
+        named = {k for k, row in enumerate(rows) if row[0] == "rank4named"}      # large finite groups first
+        plan.sort(key=lambda a: (a[0] not in named, -len(SPEC[a[0]]["reduced"]) * a[1]))
         with mp.get_context("fork").Pool(workers if quick else min(12, core.NCPU)) as pool:
             outs = pool.map(check_matrix, plan, chunksize=4)
         for (m, tot, bad, sample) in outs:
